@@ -2,5 +2,5 @@
    ExtrOcamlBasic only: bool, option, unit, list, prod, sumbool, sumor map to the OCaml
    types; nat, N, positive, ascii stay extracted inductives.  No directive of our own. *)
 From Coq Require Import Extraction ExtrOcamlBasic.
-From SP Require Import Str PathLex TempNames TempDirModel Format WfModel Comb Splitter Components Report.
-Extraction "model.ml" task_tempdir preimage hashed format_command pattern_ok apply_mods port_infos expand default_path path_valid temp_path sanitize split_all dir replace_all eval comb split_bytes lines_of selector concat_out contains report rid.
+From SP Require Import Str PathLex TempNames TempDirModel Format WfModel Comb Splitter Components Report Json.
+Extraction "model.ml" task_tempdir preimage hashed format_command pattern_ok apply_mods port_infos expand default_path path_valid temp_path sanitize split_all dir replace_all eval comb split_bytes lines_of selector concat_out contains report rid jrender decode.
